@@ -60,6 +60,7 @@ fn worker(args: &[String]) {
     };
     let rep = match kind.as_str() {
         "sdd" => guarded(|| props::sddsweep::worker_batch(&ctx, &input)),
+        "sddmid" => guarded(|| props::sddmid::worker(&ctx, &input)),
         _ => Err(format!("unknown worker kind {}", kind)),
     };
     match rep {
